@@ -80,6 +80,9 @@ def space(tier, seed):
         if tier == "quick" and (scn["period"] == 5 or len(scn["sessions"]) > 2):
             continue
         items.append({"part": "sim", "scn": scn})
+        if scn["sk"] == "max1" and scn["period"] != 5:
+            # the same sessions simulated a second time with the SAME (reset) EV objects and a pulsed scheduler
+            items.append({"part": "sim", "scn": dict(scn, rerun=True)})
     # (c) cells of simulations on a StochasticNetwork (stations assigned at run time, EVs swapped out early)
     for it in c02.stoch_items("quick"):
         items.append({"part": "stoch", "item": it})
@@ -183,6 +186,9 @@ def run_battery(item, acc):
 def check_sim(scn, viol):
     with S.owned_noise(S.cyclic(scn.get("noise") or [0.0])):
         tr = S.run_sim(scn)
+        if scn.get("rerun") and tr.error is None:
+            scn2 = dict(scn, sched={"kind": "script", "prog": {"rule": "zeromax", "len": 1}}, k=1)
+            tr = S.run_sim(scn2, reuse=tr.evs)
     if tr.error is not None:
         viol.append(("sim-exception:%s" % type(tr.error).__name__, "run() raised %r" % tr.error, repr(tr.error), None))
         return tr
